@@ -660,6 +660,13 @@ def sockUdpEcho (s : SockO) (e : EP) : ResM (Char × Option Blk × EP) := do
   let some from_ ← malloc | return ('D', none, e)
   return ('S', some from_, e)
 
+/-- I/O on a socket that was closed (`p_socket_send`, `_receive`, `_shutdown`, `_set_buffer_size`, `_listen`, `_io_condition_wait`,
+    `_accept`): `pp_socket_check` reports "already closed"; only the first call finds the error pointer empty -/
+def sockIoClosed (s : SockO) (e : EP) : ResM (Char × SockO × EP) := do
+  deref (some s.self)
+  let e' ← setErr e
+  return ('F', s, e')
+
 def sockClose (s : SockO) : ResM SockO := do
   deref (some s.self)
   match s.fd with
